@@ -91,6 +91,30 @@ static int history(Pools& w)
       self_ptr() = ident(obj); auto d = guarded([&] { return dump(as_iface(obj)); }); self_ptr() = nullptr;
       remember_obj(key, args, obj, d, container);
    };
+   // what a name is bound to in a scope (lookup by name, then selection by type), remembered like a node: once a member was
+   // entered under (name, type), the answer never changes, however many members follow
+   static std::vector<std::unique_ptr<char>> tokens;
+   auto note_binding = [&](const ipr::Scope& sc, const ipr::Name& nm, const ipr::Type& ty, const std::string& key, const std::string& args) {
+      Remembered m;
+      m.key = key; m.args = args;
+      tokens.push_back(std::make_unique<char>());
+      const void* token = tokens.back().get();
+      m.addr = token; m.where = [token] { return token; };
+      const ipr::Scope* s = &sc; const ipr::Name* n = &nm; const ipr::Type* t = &ty;
+      m.redump = [s, n, t] {
+         return guarded([&] {
+            auto ov = (*s)[*n];
+            if (not ov.is_valid()) return std::string("binding=none ");
+            auto sel = ov.get()[*t];
+            if (not sel.is_valid()) return std::string("binding=notype ");
+            std::size_t i = 0;
+            for (auto& d : s->elements()) { if (&d == &sel.get()) break; ++i; }
+            return "binding=member" + std::to_string(i) + " ";
+         });
+      };
+      m.first = m.redump();
+      remembered().push_back(std::move(m));
+   };
    while (std::getline(std::cin, line)) {
       if (line.empty() or line[0] == '#') continue;
       ++step;
@@ -128,8 +152,8 @@ static int history(Pools& w)
             auto& c = cs.at(ci % cs.size());
             std::string id = std::to_string(ci % cs.size()) + "." + std::to_string(c.added);
             auto& name = *w.ids[c.added % 12]; auto& ty = *w.types[(c.added * 5) % 12];
-            if (c.en) note(*c.en->add_member(name), "M-enumerator", id);
-            else if (c.map) note(*c.map->param(name, ty), "M-parameter", id);
+            if (c.en) { note(*c.en->add_member(name), "M-enumerator", id); note_binding(c.en->region().bindings(), name, c.en->members().position(0)->type(), "B-enumerator-name", id); }
+            else if (c.map) { note(*c.map->param(name, ty), "M-parameter", id); note_binding(c.map->parameters().region().bindings(), name, ty, "B-parameter-name", id); }
             else if (c.cls) {
                if (c.added % 2 == 0) note(*c.cls->declare_base(ty), "M-base", id);
                else note(*c.cls->body.declare_field(name, ty), "M-field", id, true);   // its decl-set may gain redeclarations at its end
